@@ -856,6 +856,14 @@ def part_e(ctx, cov, dist, rng, repo, variant, only=None):
         return {"ssh": True, "hosts": hosts, "user": rng.choice([None, "bob", luser]), "args": rng.choice(templates),
                 "append": rng.choice(appends),
                 "words": [rng.choice(pieces) for _ in range(rng.choice([1, 2, 3, 4]))]}
+    # which form of ssh_argv_create is this?  (F09-SSHPCT repaired = `echo %h` reaches ssh as written)
+    margs = ["model", variant]
+    pr = preload.run_pdsh(pool, exe, ["-R", "ssh", "-w", "n1", "echo", "%h"], moddir_env=sshdir, fake_dir=sshdir,
+                          dirlist=["sshcmd.so"], extra_env={"PATH": fakebin + ":/usr/bin:/bin"}, argv0=exe)
+    if any(l.split()[-1] == hx("%h") for l in pr["out"].splitlines() if ": argv " in l):
+        margs.append("sshesc")
+        ctx.log("ssh_argv_create escapes '%' in the command words (F09-SSHPCT repaired): model runs as `sshesc`")
+    dist["ssh_variant"] = " ".join(margs)
     lines, recs = [], []
     for g in ((gen() for _ in range(n)) if only is None else only):
         words = g["words"]
@@ -880,7 +888,7 @@ def part_e(ctx, cov, dist, rng, repo, variant, only=None):
             lines.append("ssh %s %s %s %d 0 %s %s ~ %s %s" % (hx(h), hx(luser), hx(g["user"] or luser), rank, opt(g["append"]),
                                                             opt(g["args"]), hx(" ".join(words)), " ".join(hx(w) for w in words)))
             recs.append((g, argv, h, got.get(h), r))
-    ml = ctx.model("rcmd", "".join(l + "\n" for l in lines), args=["model", variant]) if lines else []
+    ml = ctx.model("rcmd", "".join(l + "\n" for l in lines), args=margs) if lines else []
     for (g, argv, h, got, r), m in zip(recs, ml):
         cov["evaluations"] += 1
         dist["ssh"] += 1
@@ -896,7 +904,8 @@ def part_e(ctx, cov, dist, rng, repo, variant, only=None):
         # the command text must reach the transport unchanged: the last arguments are the command words
         want = [hx(w) for w in g["words"]]
         if got[-len(want):] != want:
-            esc = any(x in w for w in g["words"] for x in ("%h", "%u", "%n", "%%"))
+            # the known-finding class exists only in the code that formats the command words as they stand
+            esc = "sshesc" not in margs and any(x in w for w in g["words"] for x in ("%h", "%u", "%n", "%%"))
             sig = "ssh:percent-in-command" if esc else "ssh:mismatch"
             dist["offenders"][sig] = dist["offenders"].get(sig, 0) + 1
             ctx.offender(sig, "the command words reach ssh as %s instead of %s" % (
